@@ -230,6 +230,69 @@ theorem lookupLoop_good (B : Nat) (ll : LookupList) (gd : Gdef) {lk : Lookup} (h
       omega
     · exact ⟨Reach.refl _ _, fun h => h⟩
 
+/-! ## the reverse loop of a GSUB type 8 lookup (REPAIRED #32) -/
+
+/-- a GSUB 8.1 subtable replaces one glyph id: same length, same runes, same stack -/
+theorem applyAt_rev (kp : Nat → Bool) (st : St) (a : Nat) (b : Int) : ∀ (ss : List Subtable) st' n,
+    ss.all Subtable.isRev81 = true → applyAt kp st a b ss = .ok (some (st', n)) →
+    st'.stack = st.stack ∧ st'.seq.length = st.seq.length ∧ textOf st'.seq = textOf st.seq := by
+  intro ss
+  induction ss with
+  | nil => intro st' n _ h; simp only [applyAt] at h; cases h
+  | cons s ss ih =>
+    intro st' n hall h
+    simp only [List.all_cons, Bool.and_eq_true] at hall
+    simp only [applyAt] at h
+    obtain ⟨r, hr, h⟩ := bind_ok h
+    cases r with
+    | none => exact ih st' n hall.2 h
+    | some r =>
+      injection h with h; injection h with h; subst h
+      cases s with
+      | gsub81 input back look subst =>
+        simp only [applySub] at hr
+        obtain ⟨g, hg, hr⟩ := bind_ok hr
+        split at hr
+        · cases hr
+        · split at hr
+          · cases hr
+          · obtain ⟨m, hm, hr⟩ := bind_ok hr
+            split at hr
+            · cases hr
+            · obtain ⟨v, hv, hr⟩ := bind_ok hr
+              injection hr with hr; injection hr with hr; injection hr with h1 h2; subst h1
+              exact ⟨rfl, by simp, textOf_set (idx_ok hg) rfl⟩
+      | _ => simp [Subtable.isRev81] at hall
+
+theorem revLoop_good (gd : Gdef) {lk : Lookup} (hrev : lk.reverse = true) :
+    ∀ (n : Nat) (st : St),
+    Good (fun st' => st'.stack = st.stack ∧ st'.seq.length = st.seq.length ∧ textOf st'.seq = textOf st.seq)
+      (revLoop gd lk n st) := by
+  have hall : lk.subtables.all Subtable.isRev81 = true := by
+    unfold Lookup.reverse at hrev; simp only [Bool.and_eq_true] at hrev; exact hrev.2
+  intro n
+  induction n with
+  | zero => intro st; simp only [revLoop]; exact ⟨rfl, rfl, rfl⟩
+  | succ n ih =>
+    intro st
+    simp only [revLoop]
+    refine Good.bind (Q := fun _ => True) (Good.of_noErr idx_noErr (fun _ _ => trivial)) ?_
+    intro g _ _
+    split
+    · refine Good.bind (Q := fun r => ∀ st1 nx, r = some (st1, nx) →
+          st1.stack = st.stack ∧ st1.seq.length = st.seq.length ∧ textOf st1.seq = textOf st.seq)
+        (Good.of_noErr (applyAt_noErr _ _ _ _ _) ?_) ?_
+      · intro r hr st1 nx he; subst he
+        exact applyAt_rev _ _ _ _ _ _ _ hall hr
+      · intro r _ hr
+        cases r with
+        | none => exact ih st
+        | some r =>
+          obtain ⟨st1, nx⟩ := r
+          obtain ⟨h1, h2, h3⟩ := hr st1 nx rfl
+          exact (ih st1).mono fun st' h => ⟨h.1.trans h1, h.2.1.trans h2, h.2.2.trans h3⟩
+    · exact ih st
+
 /-! ## Context.Apply -/
 
 theorem applyLookups_good (B : Nat) (ll : LookupList) (gd : Gdef) : ∀ (lookups : List Nat) (st : St),
@@ -252,7 +315,15 @@ theorem applyLookups_good (B : Nat) (ll : LookupList) (gd : Gdef) : ∀ (lookups
     · exact (ih st).mono fun st' h => ⟨h.1, Nat.le_trans h.2.1 (hpow _), h.2.2⟩
     · rename_i lk hlk
       have hmem : lk ∈ ll := List.mem_of_getElem? hlk
-      have h0 := lookupLoop_good B ll gd hmem st.seq.length st 0 (by simp)
+      have h0 : Good (fun st' => Reach' (((st.seq.length : Int) - 0).toNat * stepGrowth B ll) st st')
+          (applyLookup B ll gd lk st) := by
+        unfold applyLookup
+        split
+        · rename_i hrev
+          exact (revLoop_good gd hrev _ st).mono fun st' h =>
+            ⟨⟨by rw [h.2.2], by rw [h.2.1]; exact Nat.le_add_right _ _⟩,
+             fun hs => by rw [h.1]; exact hs⟩
+        · exact lookupLoop_good B ll gd hmem st.seq.length st 0 (by simp)
       refine Good.bind h0 ?_
       intro st1 _ h1
       refine (ih st1).mono fun st' h => ⟨h.1.trans h1.text, ?_, fun hs => h.2.2 (h1.stack hs)⟩
